@@ -280,6 +280,8 @@ let vfmode file =
         let s = get () in let (r, s') = halfrate s true in st := Some s'; Printf.printf "halfrate %d\n" (iz r)
     | "links" :: _ ->
         let s = get () in
+        (* model-only line: do the hypotheses of C09_read_from_start_is_in_sync hold for this freshly opened handle? *)
+        Printf.printf "tho %d\n" (if start_hyps s then 1 else 0);
         Printf.printf "links %d total %d" (List.length s.v_links) (iz (pcm_total s));
         List.iteri (fun i l ->
           let (ch, rate) = (match String.split_on_char ':' (List.nth !refline i) with
